@@ -136,7 +136,7 @@ func runC09(c *Ctx, d c09Desc) {
 	defer w.Close()
 	var mu sync.Mutex
 	shutdownEvents := map[string][]extEvent{} // per extension name: SHUTDOWN events received
-	crashNow := make(chan struct{})          // closed to make the "alreadyExited" parties exit
+	crashNow := make(chan struct{})           // closed to make the "alreadyExited" parties exit
 	var crashOnce sync.Once
 	withhold := d.Trigger == "timeout" && d.Rt != "neverStarted"
 
@@ -421,7 +421,9 @@ func runC09(c *Ctx, d c09Desc) {
 	// ---- runtime ----
 	if rtProc == nil {
 		c.Check(d.Rt == "neverStarted" || d.Rt == "launchFail" || contains(d.Exts, "launchFail"), "runtime_not_started_consistent", "C09/harness-runtime-missing", "runtime process missing", nil)
-		c.Check(len(vh.Filter(sup, func(e vh.Event) bool { return strings.HasPrefix(e.Op, "runtime-") && (e.Kind == "term" || e.Kind == "kill") })) == 0,
+		c.Check(len(vh.Filter(sup, func(e vh.Event) bool {
+			return strings.HasPrefix(e.Op, "runtime-") && (e.Kind == "term" || e.Kind == "kill")
+		})) == 0,
 			"no_signal_to_unstarted_runtime", "C09/signal-to-unstarted-runtime", "a runtime that was never started was terminated or killed", nil)
 	} else {
 		terms, kills := find("term", rtProc.Name), find("kill", rtProc.Name)
